@@ -3,7 +3,7 @@ import os
 import vcheck as V
 from props import common
 
-THEOREMS = ["C12_release_only_by_owner", "C12_refund_height", "C12_frozen_untouched", "C12_unfreeze", "C12_only_to_owner", "C12_once"]
+THEOREMS = ["C12_history", "C12_payout_at_most_once", "C12_payout_at_most_once_gen", "C12_payout_never_early_and_in_full", "C12_payout_only_to_owner", "C12_payout_link", "C12_payout_link_balance", "C12_payout_two_validators_refuted", "C12_release_only_by_owner", "C12_refund_height", "C12_frozen_untouched", "C12_unfreeze", "C12_only_to_owner", "C12_once"]
 PROPS_V = "theories/Props/C12.v"
 
 
